@@ -366,6 +366,11 @@ def y3(ctx, F):
         ctx.check("C20.Y3", "row-label=row+1", lab_ok, fn=P, file=fn["file"], line=hir.line(labels[0][0]) if labels else None,
                   what="each printed row must be labelled with its rank (row + 1)", expected="%s + 1" % rowv,
                   found=[hir.fmt(w[2][0][1], 60) for w in labels])
+        # each row of the diagram is a line of its own
+        ends = site(lambda w: len(loop_binders(w[3])) == 1 and loop_binders(w[3])[0][0] == loops[0][0] and w[1] and "\n" in w[1])
+        ctx.check("C20.Y3", "row-ends-its-line", bool(ends), fn=P, file=fn["file"], line=hir.line(n),
+                  what="the rows of the diagram are not separated by line breaks: the eight ranks run into one line",
+                  expected="a line break printed once per row", found=[w[1] for w in ws if len(loop_binders(w[3])) == 1])
     legend = site(lambda w: w[1] and "a b c d e f g h" in w[1] and not loop_binders(w[3]))
     ctx.check("C20.Y3", "legend-a-to-h", len(legend) == 1, fn=P, file=fn["file"],
               what="the file legend `a b c d e f g h` must be printed once under the diagram", found=[w[1] for w in ws if w[1] and "a b" in w[1]])
